@@ -3911,16 +3911,24 @@ def run_dispatch_tie(ctx):
     ans = ctx.model(['C19 dispatch'])[0]
     toks = ans.split()
     ctx.traces_validated += 1
-    if toks[:1] != ['ok'] or len(toks) < 4:
+    if toks[:1] != ['ok'] or len(toks) < 7:
         ctx.disagree('C19 dispatch vs model', 'model answered %r' % ans[:80], key='dispatch rejected')
         return
-    # ok <entries> <attributes> <failing entries|-> <missing attributes|-> then one `<old>/<new>` prediction per entry
+    # ok <entries> <attributes> <failing entries|-> <missing attributes|-> <elementwise> <keeping the grid> then one `<old>/<new>` prediction per entry
     if int(toks[1]) != len(rows) or int(toks[2]) != len(meths):
         ctx.disagree('C19 dispatch vs model', 'the table built into the driver has %s entries / %s attributes, the running code gives %d / %d' % (toks[1], toks[2], len(rows), len(meths)), key='dispatch stale')
         return
     if toks[3] != '-' or toks[4] != '-':
         ctx.disagree('C19 dispatch vs model', 'entries not handled as the wrapping policies of the model say: %s; attributes missing on the wrapper: %s' % (toks[3], toks[4]), key='dispatch table')
-    for (name, kind, tags, zero, o, n), pred in zip(rows, toks[5:]):
+    # number of elementwise entries (ufunc class, a Field operand, array result) and of those that keep the grid, as the model counts them
+    n_ew = sum(1 for name, kind, tags, zero, o, n in rows if kind in ('fn ufunc', 'fnMulti') and any(t.startswith('(') for t in tags) and not zero)
+    n_kept = sum(1 for name, kind, tags, zero, o, n in rows if kind in ('fn ufunc', 'fnMulti') and any(t.startswith('(') for t in tags) and not zero
+                 and o in ('field', 'tupleFields') and n in ('field', 'tupleFields'))
+    ctx.traces_validated += 1
+    if [int(toks[5]), int(toks[6])] != [n_ew, n_kept]:
+        ctx.disagree('C19 dispatch vs model', 'elementwise entries / keeping the grid: model %s / %s, running code %d / %d' % (toks[5], toks[6], n_ew, n_kept), key='dispatch elementwise')
+    ctx.count('dispatch-elementwise', n_ew)
+    for (name, kind, tags, zero, o, n), pred in zip(rows, toks[7:]):
         ctx.traces_validated += 1
         ctx.count('dispatch:' + kind)
         if pred != '%s/%s' % (o, n):
